@@ -70,7 +70,7 @@ func New(ctx context.Context, log *slog.Logger, opts ...Opt) (*Engine, error) {
 
 	var err error
 	for _, opt := range opts {
-		err = errors.Join(opt(e, &smCfg))
+		err = errors.Join(err, opt(e, &smCfg))
 	}
 	if err != nil {
 		return nil, err
